@@ -74,7 +74,7 @@ def shims_for(size=None, specs=None) -> Shims:
     s.add(WR, StatusStringMapping=StatusMapShim(WR.StatusStringMapping), str=str_shim)
     s.add(AR, str=str_shim)
     s.add(R, quote=quote_model)
-    s.add(DS, _cookie_is_legal_key=legal_key_shim())
+    s.add(DS, _cookie_is_legal_key=legal_key_shim()).add_compiled_regexes(DS)
     return s
 
 
